@@ -58,6 +58,13 @@ def run(ctx):
             items = [rand_item(allow_hard=True) for _ in range(depth)]
             path = '/'.join(([prefix] if prefix else []) + items)
             cases.append(('bip32 %s %s' % (seed.hex(), path), attempt(lambda: master.subkey_for_path(path)), True))
+        # a master key object created with compressed=False (addresses of the uncompressed form) still derives the BIP32 children;
+        # a hardened marker on a number from 2^31 on is not a child number
+        mu = attempt(lambda: HDKey.from_seed(seed, compressed=False))
+        for pth in ('m/0', "m/1'/2", 'm/2147483647/5', 'M/3/4'):
+            cases.append(('bip32 %s %s' % (seed.hex(), pth), attempt(lambda: HDKey.from_seed(seed, compressed=False).subkey_for_path(pth)), True))
+        for pth in ("m/2147483648'", 'm/0/2147483649h', "m/4294967295'"):
+            cases.append(('bip32 %s %s' % (seed.hex(), pth), attempt(lambda: master.subkey_for_path(pth)), True))
         # the prefixes alone: 'm' is the key itself, 'M' its public part (on the master and on a derived key)
         for base in ([], ['m', "3'", '7']):
             def bare(prefix_, base_=base):
